@@ -7,11 +7,11 @@ from module_ir.PRODUCTIONS and format_emb._formatters on every run); spec:
 Emboss/Spec/Fmt.lean; lemmas: Emboss/Lemmas/Fmt*.lean.
 
 What is *not* a theorem here (decided by the correspondence + oracle on the real code,
-and labelled so in the manifest): fmt(fmt t) = fmt t, and that the formatted text
+and labelled so in the manifest): fmt(fmt t) = fmt t in full, and that the formatted text
 re-tokenizes to the same tokens (needs tokenizer ∘ parser ∘ render as one object).
 -/
 import Emboss.Lemmas.FmtSanity
-import Emboss.Lemmas.FmtTable
+import Emboss.Lemmas.FmtTableOK
 namespace Emboss.Fmt
 open Emboss.Generated.FmtTable
 
@@ -34,8 +34,7 @@ symbols are computed once, the rest is arithmetic — and transported to the tab
 strings by `tableTypedN_sound`; the interned copy is checked to decode to `formatters`.) -/
 theorem C11_table_ok :
     tableTyped formatters = true ∧ formatters.map prodOf = grammar ∧ kindOf startSymbol = .str :=
-  ⟨tableTypedN_sound symbols formattersN formatters (by decide +kernel) (by decide +kernel),
-   by decide +kernel, by decide +kernel⟩
+  table_ok
 
 /-! ## Totality -/
 
@@ -118,95 +117,56 @@ example : wf formatters exTree = true ∧ layoutBlank exTree = true ∧
 
 /-! ## The self-check -/
 
-/-- `sanity_check_format_result` (its comparison loop over the collapsed streams)
-returns `[]` iff the original stream agrees with a *prefix* of the formatted stream.
-Full statement wanted: `… = .ok ↔ StreamsAgree o f`; it is false (next theorem): the
-loop never looks at `len(f_tokens)`. -/
-theorem C11_sanity_agrees_partial (o f : List Tok) :
-    sanityLoop 0 o f = .ok ↔ ∃ f1 f2, f = f1 ++ f2 ∧ StreamsAgree o f1 :=
+/-- `sanity_check_format_result` (its comparison of the collapsed token streams) returns
+`[]` **iff** the collapsed streams agree: same length, and at every position the same
+symbol and the same text up to surrounding blanks.  (Before commit f3f855c only
+"the original agrees with a *prefix* of the formatted stream" held.) -/
+theorem C11_sanity_agrees (o f : List Tok) :
+    sanityLoop 0 o f = .ok ↔ StreamsAgree o f :=
   sanityLoop_ok_iff o f 0
 
-/-- When the formatted stream is not longer than the original one (which
-`C11_tokens_preserved` + the correspondence give for the real formatter output), the
-self-check returns `[]` exactly when the streams agree. -/
-theorem C11_sanity_agrees_of_length (o f : List Tok) (hlen : f.length ≤ o.length) :
-    sanityLoop 0 o f = .ok ↔ StreamsAgree o f := by
-  rw [C11_sanity_agrees_partial]
+/-- … and when it reports "Symbol k differs", `k` is the first position at which the
+streams differ (both have a token there and the streams agree before it): the length
+comparison does not mask a differing symbol. -/
+theorem C11_sanity_reports_first_difference (o f : List Tok) (k : Nat) :
+    sanityLoop 0 o f = .differs k ↔ FirstDiff o f k := by
+  rw [sanityLoop_differs_iff]
   constructor
-  · rintro ⟨f1, f2, rfl, h⟩
-    have := h.length_eq
-    have : f2 = [] := by
-      cases f2 with
-      | nil => rfl
-      | cons x xs => simp at hlen; omega
-    subst this; simpa using h
-  · intro h; exact ⟨f, [], by simp, h⟩
+  · rintro ⟨j, rfl, h⟩; simpa using h
+  · intro h; exact ⟨k, by simp, h⟩
 
-/-- With the length comparison of fixes/C11-sanity-check-length.patch the intended
-statement holds in full: `[]` iff the collapsed streams agree (and no `IndexError`). -/
-theorem C11_sanity_agrees_fixed (o f : List Tok) :
-    sanityLoopLen o f = .ok ↔ StreamsAgree o f := by
-  unfold sanityLoopLen
-  split
-  · rename_i hne
-    constructor
-    · intro h; cases h
-    · intro h; exact absurd h.length_eq hne
-  · rename_i heq
-    have : f.length ≤ o.length := by
-      have : o.length = f.length := Decidable.of_not_not heq
-      omega
-    exact C11_sanity_agrees_of_length o f this
+/-- Hence "Token count differs" is reported exactly when one collapsed stream agrees with
+a proper prefix of the other. -/
+theorem C11_sanity_count_differs (o f : List Tok) :
+    sanityLoop 0 o f = .countDiffers ↔ ¬ StreamsAgree o f ∧ ∀ k, ¬ FirstDiff o f k := by
+  rw [← C11_sanity_agrees]
+  constructor
+  · intro h
+    refine ⟨?_, fun k hk => ?_⟩
+    · rw [h]; intro h'; cases h'
+    · rw [← C11_sanity_reports_first_difference, h] at hk; cases hk
+  · rintro ⟨h1, h2⟩
+    cases hr : sanityLoop 0 o f with
+    | ok => exact absurd hr h1
+    | differs k => exact absurd ((C11_sanity_reports_first_difference o f k).1 hr) (h2 k)
+    | countDiffers => rfl
 
 def tDoc : Tok := ⟨"Documentation", "-- doc".toList⟩
 def tNl : Tok := ⟨nlSym, "\n".toList⟩
 def tExtra : Tok := ⟨"Documentation", "-- extra".toList⟩
 
-/-- Counterexample to the full statement (finding `sanity-check-ignores-length`):
-formatted "-- doc\n-- extra\n" against original "-- doc\n" is accepted although the streams
-differ; and with the texts swapped the loop indexes past the end (`IndexError`). -/
-theorem C11_sanity_agrees_counterexample :
-    sanityCheck [tDoc, tNl, tExtra, tNl] [tDoc, tNl] = .ok ∧
-    ¬ StreamsAgree (collapseNewlines [tDoc, tNl]) (collapseNewlines [tDoc, tNl, tExtra, tNl]) ∧
-    sanityCheck [tDoc, tNl] [tDoc, tNl, tExtra, tNl] = .indexError 2 := by
-  refine ⟨by decide, ?_, by decide⟩
-  intro h
-  have := h.length_eq
-  revert this
-  decide
-
-/-- Non-vacuity of `C11_sanity_agrees_of_length`: extra newlines and trailing blanks. -/
+/-- Non-vacuity / tests on literals: extra newlines and trailing blanks are accepted; the
+pinned probes of the repaired finding `sanity-check-ignores-length` (formatted
+"-- doc\n-- extra\n" against original "-- doc\n", and the swapped pair) are reported as
+a token-count difference; a differing symbol in front of a length difference is reported
+as a differing symbol. -/
 example : sanityCheck [tNl, ⟨"Documentation", "-- doc  ".toList⟩, tNl, tNl] [tDoc, tNl] = .ok := by decide
-
-/-! ## Known defects, on the model -/
-
-/-- Finding `minus-minus-juxtaposed`: the handler registered for
-`additive-expression-right -> additive-operator times-expression` and for
-`additive-expression -> times-expression additive-expression-right*` is `_concatenate`;
-on `x`, `-`, `-5` it yields `x--5`, whose tail the tokenizer reads as documentation. -/
-theorem C11_render_separable_counterexample (iw : Nat) :
-    Handler.run iw .concatenate [.str "-".toList, .str "-5".toList] = some (.str "--5".toList) ∧
-    Handler.run iw .concatenate [.str "x".toList, .str "--5".toList] = some (.str "x--5".toList) := by
-  constructor <;> rfl
-
-def evBlock (nm val doc cm : String) : Block :=
-  { pre := [],
-    header := { name := RowName.enumValue,
-                columns := [nm.toList, "=".toList, val.toList, [], doc.toList, cm.toList],
-                indent := 0 },
-    body := [] }
-
-/-- Finding `inline-doc-trailing-blanks-widen-column`: the documentation column is as
-wide as the untrimmed token, so the trailing comment of the *other* row lands at a
-column that depends on blanks the rendering then strips: after one formatting pass the
-blanks are gone and a second pass moves the comment (13 → 10 blanks here). -/
-theorem C11_idempotence_counterexample :
-    (columnize [evBlock "AA" "1" "-- abc   " "", evBlock "BB" "2" "" "# c"] 2 1).map
-        (fun s => s.map (fun l => l.map (fun r => r.columns.map String.ofList))) =
-      some [[["AA = 1  -- abc"]], [["BB = 2             # c"]]] ∧
-    (columnize [evBlock "AA" "1" "-- abc" "", evBlock "BB" "2" "" "# c"] 2 1).map
-        (fun s => s.map (fun l => l.map (fun r => r.columns.map String.ofList))) =
-      some [[["AA = 1  -- abc"]], [["BB = 2          # c"]]] := by
-  decide +kernel
+example : sanityCheck [tDoc, tNl, tExtra, tNl] [tDoc, tNl] = .countDiffers ∧
+    sanityCheck [tDoc, tNl] [tDoc, tNl, tExtra, tNl] = .countDiffers ∧
+    sanityCheck [] [tDoc, tNl] = .countDiffers ∧
+    sanityCheck [tExtra, tNl, tDoc, tNl] [tDoc, tNl] = .differs 0 := by decide
+example : StreamsAgree (collapseNewlines [tDoc, tNl])
+    (collapseNewlines [tNl, ⟨"Documentation", "-- doc  ".toList⟩, tNl, tNl]) :=
+  (C11_sanity_agrees _ _).1 (by decide)
 
 end Emboss.Fmt
